@@ -236,6 +236,10 @@ def choose_opts(f, rng):
     nts = [q[0][1] if q[0][0] != "xq" else q[0][2] for q in qs]
     opts = {"drop_in_start": rng.random() < 0.6, "infix": rng.random() < 0.6, "omit_names": set(), "free": set()}
     for (q, top), nt in zip(qs, nts):
+        var0 = q[2] if q[0] != "xq" else q[3]
+        if var0.startswith("forcefree"):
+            opts["free"].add(var0)
+            continue
         if nts.count(nt) != 1:
             continue   # `<type>` would be ambiguous
         var = q[2] if q[0] != "xq" else q[3]
@@ -269,6 +273,20 @@ def gen_ext(gen, rng):
     cg = gen.cg
     scope = {"start": "<start>"}
     r = rng.random()
+    if r < 0.08:
+        # a free nonterminal next to a user-declared variable that is named like the nonterminal (`var` for `<var>`): the
+        # fresh name chosen for the closed-over nonterminal must avoid it
+        cands = [nt for nt in sorted(gen.reach["<start>"]) if re.fullmatch(r"<[A-Za-z][A-Za-z0-9_]*>", nt)]
+        if cands:
+            nt = rng.choice(cands)
+            base, fv = nt[1:-1], gen.fresh("forcefree")
+            sc = {base: nt, fv: nt}
+            a1 = ("smt", f"(= {fv} {base})" if rng.random() < 0.5 else f"(= {base} {fv})", sorted([fv, base]))
+            body = a1 if rng.random() < 0.5 else ("not", a1)
+            if rng.random() < 0.4:
+                body = (rng.choice(["and", "or"]), body, gen.atom({base: nt}))
+            inner = (rng.choice(["forall", "exists"]), nt, base, "start", None, body)
+            return ("forall", nt, fv, "start", None, inner), "free_named_clash"
     if r < 0.35:
         return gen.formula(rng.randint(1, 3), scope), "plain"
     if r < 0.6:
